@@ -1,6 +1,7 @@
 (* C06 - model of `uftrace replay` on user-function records (utils/fstack.c + cmds/replay.c).
 
-   Code modelled (no filters, no kernel/perf/event/extern data, records are ENTRY/EXIT only):
+   Code modelled (no filters, no kernel/perf/event/extern data; records are ENTRY, EXIT and the
+   LOST marker libmcount writes into <tid>.dat after a buffer overflow):
      read_user_stack / get_task_ustack   k-way merge: smallest head time, strict `<` so the
                                          lowest task index wins ties              [merge]
      update_first_timestamp              running minimum used by the `elapsed` field
@@ -23,7 +24,7 @@ Require Import UV.Gen.TimeUnit.
 Local Open Scope N_scope.
 
 (* ------------------------------------------------------------------ records and tasks *)
-Inductive rtype := ENTRY | EXIT.
+Inductive rtype := ENTRY | EXIT | LOST.        (* LOST: r_addr = number of lost records *)
 Record rec := mkrec { r_time : N; r_type : rtype; r_depth : N; r_addr : N }.
 (* r_addr: abstract function id > 0 (the tie maps symbol k to k+1; 0 = "no address", the
    value of a calloc'ed func_stack slot) *)
@@ -32,7 +33,8 @@ Record rec := mkrec { r_time : N; r_type : rtype; r_depth : N; r_addr : N }.
    task.txt resolved by get_task_handle) and the records of <tid>.dat *)
 Record task := mktask { k_parent : option nat; k_recs : list rec }.
 
-Definition is_exit (r : rec) : bool := match r_type r with EXIT => true | ENTRY => false end.
+Definition is_exit (r : rec) : bool := match r_type r with EXIT => true | _ => false end.
+Definition is_lost (r : rec) : bool := match r_type r with LOST => true | _ => false end.
 
 Definition W64 : N := 18446744073709551616.
 Definition sub64 (a b : N) : N := (a + W64 - b) mod W64.       (* uint64_t a - b *)
@@ -91,10 +93,13 @@ Record tstate := mkts {
   t_stack : list frame;    (* func_stack[]; slots beyond the list are zero (xcalloc) *)
   t_ts : N;                (* timestamp *)
   t_ts_last : N;           (* timestamp_last *)
-  t_orphan : bool          (* forked task whose parent reader is not selected (--tid): its first record
+  t_orphan : bool;         (* forked task whose parent reader is not selected (--tid): its first record
                               clears display_depth_set, the display depth then comes from the stack count *)
+  t_usc : N;               (* user_stack_count: counts ENTRY/EXIT seen, NOT initialised from the first depth *)
+  t_lost : bool            (* lost_seen (display_depth_set is false exactly while it is set: both are
+                              restored while the first record after the marker is handled) *)
 }.
-Definition tstate0 := mkts false 0 0 0 [] 0 0 false.
+Definition tstate0 := mkts false 0 0 0 [] 0 0 false 0 false.
 
 Definition fget (st : list frame) (i : N) : frame := nth (N.to_nat i) st frame0.
 Fixpoint upd (st : list frame) (n : nat) (x : frame) : list frame :=
@@ -121,16 +126,51 @@ Fixpoint init_frames (st : list frame) (n : nat) (t : N) : list frame :=
 Definition first_setup (inh : N) (ts : tstate) (r : rec) : tstate :=
   if t_set ts then ts
   else
-    let sc := match r_type r with ENTRY => r_depth r | EXIT => r_depth r + 1 end in
+    let sc := match r_type r with EXIT => r_depth r + 1 | _ => r_depth r end in
     mkts true sc (if inh =? 0 then (if t_orphan ts then sc else t_dd ts) else inh) (t_fork_dd ts)
-         (init_frames (t_stack ts) (N.to_nat sc) (r_time r)) (t_ts ts) (t_ts_last ts) (t_orphan ts).
+         (init_frames (t_stack ts) (N.to_nat sc) (r_time r)) (t_ts ts) (t_ts_last ts) (t_orphan ts) (t_usc ts) (t_lost ts).
 
-(* fstack_account_time, ENTRY / EXIT part *)
+(* fstack_account_time, `if (task->lost_seen)`: the first record after a LOST marker
+   re-synchronises stack_count from its depth field and restarts the clocks of the slots
+   user_stack_count + 0..depth *)
+Fixpoint reset_times (st : list frame) (base : N) (n : nat) (t : N) : list frame :=
+  match n with
+  | O => st
+  | S n' =>
+      let st' := reset_times st base n' t in
+      let f := fget st' (base + N.of_nat n') in
+      fset st' (base + N.of_nat n') (mkframe (f_addr f) t (f_valid f))
+  end.
+Definition resync (ts : tstate) (r : rec) : tstate :=
+  if t_lost ts
+  then mkts (t_set ts) (match r_type r with EXIT => r_depth r + 1 | _ => r_depth r end) (t_dd ts) (t_fork_dd ts)
+            (reset_times (t_stack ts) (t_usc ts) (S (N.to_nat (r_depth r))) (sub64 (r_time r) 1))
+            (t_ts ts) (t_ts_last ts) (t_orphan ts) (t_usc ts) false
+  else ts.
+
+(* fstack_account_time, UFTRACE_LOST: the frames stack_count-1 .. user_stack_count are closed;
+   [lt] is lost_time (0 = not yet taken from the innermost frame) *)
+Fixpoint lost_close (st : list frame) (usc : N) (n : nat) (lt : N) : list frame :=
+  match n with
+  | O => st
+  | S i =>                                   (* frame index i = n - 1 *)
+      if N.of_nat i <? usc then st
+      else
+        let f := fget st (N.of_nat i) in
+        let lt' := if lt =? 0 then (f_time f + 1) mod W64 else lt in
+        lost_close (fset st (N.of_nat i) (mkframe (f_addr f) (sub64 lt' (f_time f)) (f_valid f))) usc i lt'
+  end.
+
+(* fstack_account_time, ENTRY / EXIT / LOST part (after the lost_seen part) *)
 Definition account (ts : tstate) (r : rec) : tstate :=
   match r_type r with
+  | LOST =>
+      mkts (t_set ts) (t_sc ts) (t_dd ts) (t_fork_dd ts)
+           (lost_close (t_stack ts) (t_usc ts) (N.to_nat (t_sc ts)) 0)
+           (t_ts ts) (t_ts_last ts) (t_orphan ts) (t_usc ts) true
   | ENTRY =>
       mkts (t_set ts) (t_sc ts) (t_dd ts) (t_fork_dd ts)
-           (fset (t_stack ts) (t_sc ts) (mkframe (r_addr r) (r_time r) true)) (t_ts ts) (t_ts_last ts) (t_orphan ts)
+           (fset (t_stack ts) (t_sc ts) (mkframe (r_addr r) (r_time r) true)) (t_ts ts) (t_ts_last ts) (t_orphan ts) (t_usc ts) (t_lost ts)
   | EXIT =>
       if t_sc ts =? 0 then ts          (* idx = -1: fstack_get returns NULL *)
       else
@@ -138,17 +178,22 @@ Definition account (ts : tstate) (r : rec) : tstate :=
         let f := fget (t_stack ts) idx in
         let delta := if f_valid f then sub64 (r_time r) (f_time f) else 0 in
         mkts (t_set ts) (t_sc ts) (t_dd ts) (t_fork_dd ts)
-             (fset (t_stack ts) idx (mkframe (f_addr f) delta false)) (t_ts ts) (t_ts_last ts) (t_orphan ts)
+             (fset (t_stack ts) idx (mkframe (f_addr f) delta false)) (t_ts ts) (t_ts_last ts) (t_orphan ts) (t_usc ts) (t_lost ts)
   end.
 
 (* fstack_update_stack_count *)
 Definition count (ts : tstate) (r : rec) : tstate :=
   mkts (t_set ts)
-       (match r_type r with ENTRY => t_sc ts + 1 | EXIT => N.pred (t_sc ts) end)
-       (t_dd ts) (t_fork_dd ts) (t_stack ts) (t_ts ts) (t_ts_last ts) (t_orphan ts).
+       (match r_type r with ENTRY => t_sc ts + 1 | EXIT => N.pred (t_sc ts) | LOST => t_sc ts end)
+       (t_dd ts) (t_fork_dd ts) (t_stack ts) (t_ts ts) (t_ts_last ts) (t_orphan ts)
+       (match r_type r with ENTRY => t_usc ts + 1 | EXIT => N.pred (t_usc ts) | LOST => t_usc ts end) (t_lost ts).
 
+(* the whole of fstack_account_time + fstack_update_stack_count for one record; a LOST marker
+   that follows a LOST marker returns before anything is done *)
 Definition consume_task (inh : N) (ts : tstate) (r : rec) : tstate :=
-  count (account (first_setup inh ts r) r) r.
+  let ts1 := first_setup inh ts r in
+  if t_lost ts1 && is_lost r then ts1
+  else count (account (resync ts1 r) r) r.
 
 (* ------------------------------------------------------------------ global state *)
 Record gstate := mkg {
@@ -181,7 +226,7 @@ Definition consume (tasks : list task) (g : gstate) (i : nat) (r : rec) : gstate
   mkg (tupd (g_tasks g) i ts) (upd_first (g_first g) (r_time r)) (g_prev g).
 
 (* ------------------------------------------------------------------ output lines *)
-Inductive kind := KOpen | KLeaf | KClose | KWarn | KBlank.
+Inductive kind := KOpen | KLeaf | KClose | KWarn | KBlank | KLost.     (* KLost: l_name = number of lost records *)
 Record line := mkline {
   l_kind : kind;
   l_task : nat;        (* index of the task (the tie maps the printed tid back) *)
@@ -201,11 +246,11 @@ Record cfg := mkcfg {
 Definition is_fork (c : cfg) (a : N) : bool := existsb (N.eqb a) (c_forks c).
 
 Definition stamp (ts : tstate) (t : N) : tstate :=
-  mkts (t_set ts) (t_sc ts) (t_dd ts) (t_fork_dd ts) (t_stack ts) t (t_ts ts) (t_orphan ts).
+  mkts (t_set ts) (t_sc ts) (t_dd ts) (t_fork_dd ts) (t_stack ts) t (t_ts ts) (t_orphan ts) (t_usc ts) (t_lost ts).
 Definition set_dd (ts : tstate) (dd : N) : tstate :=
-  mkts (t_set ts) (t_sc ts) dd (t_fork_dd ts) (t_stack ts) (t_ts ts) (t_ts_last ts) (t_orphan ts).
+  mkts (t_set ts) (t_sc ts) dd (t_fork_dd ts) (t_stack ts) (t_ts ts) (t_ts_last ts) (t_orphan ts) (t_usc ts) (t_lost ts).
 Definition set_fork (ts : tstate) (fd : N) : tstate :=
-  mkts (t_set ts) (t_sc ts) (t_dd ts) fd (t_stack ts) (t_ts ts) (t_ts_last ts) (t_orphan ts).
+  mkts (t_set ts) (t_sc ts) (t_dd ts) fd (t_stack ts) (t_ts ts) (t_ts_last ts) (t_orphan ts) (t_usc ts) (t_lost ts).
 
 Definition delta_of (ts : tstate) : N := if t_ts_last ts =? 0 then 0 else sub64 (t_ts ts) (t_ts_last ts).
 
@@ -218,6 +263,8 @@ Fixpoint run (c : cfg) (tasks : list task) (l : list (nat * rec)) (g : gstate) :
   match l with
   | [] => ([], g)
   | (i, r) :: tl =>
+      (* display_depth_set is false iff the task's previous record was a LOST marker *)
+      let pend := t_lost (tget g i) in
       let g1 := consume tasks g i r in
       let ts0 := tget g1 i in
       let warn := if negb (r_time r =? 0) && (r_time r <? g_prev g1)
@@ -225,10 +272,17 @@ Fixpoint run (c : cfg) (tasks : list task) (l : list (nat * rec)) (g : gstate) :
       let g2 := mkg (g_tasks g1) (g_first g1) (if r_time r =? 0 then g_prev g1 else r_time r) in
       let ts1 := stamp ts0 (r_time r) in
       match r_type r with
+      | LOST =>
+          (* `goto lost` comes before the timestamps are updated: the columns show the previous ones *)
+          (* opts->kernel_skip_out (default): no message while user_stack_count is 0 *)
+          let ln := if t_usc ts0 =? 0 then [] else [mk KLost i ts0 (g_first g2) (t_dd ts0 + 1) (r_addr r) 0 0] in
+          let '(out, g') := run c tasks tl g2 in
+          (warn ++ ln ++ out, g')
       | ENTRY =>
-          (* fstack_entry: fork fix-up; the display depth of this line is the current one *)
-          let ts2 := if is_fork c (r_addr r) then set_fork ts1 (t_dd ts1 + 1) else ts1 in
-          let depth := t_dd ts2 in
+          (* fstack_entry: the display depth of this line is the current one, or stack_count - 1 when it
+             has to be derived again (after LOST); the fork fix-up records depth + 1 for the children *)
+          let depth := if pend then t_sc ts1 - 1 else t_dd ts1 in
+          let ts2 := if is_fork c (r_addr r) then set_fork ts1 (depth + 1) else ts1 in
           let idx := t_sc ts2 - 1 in
           let open_ (_ : unit) :=
             let ln := mk KOpen i ts2 (g_first g2) depth (r_addr r) 0 (f_addr (fget (t_stack ts2) idx)) in
@@ -239,7 +293,8 @@ Fixpoint run (c : cfg) (tasks : list task) (l : list (nat * rec)) (g : gstate) :
               if c_fold c && Nat.eqb j i && (r_depth r' =? r_depth r) && is_exit r'
               then
                 (* leaf: fstack_consume(next); duration from the same func_stack slot *)
-                let g3 := consume tasks (tset g2 i ts2) i r' in
+                (* fstack_entry has set display_depth (it may have been derived just now) *)
+                let g3 := consume tasks (tset g2 i (set_dd ts2 depth)) i r' in
                 let ts3 := tget g3 i in
                 let f := fget (t_stack ts3) idx in
                 let ln := mk KLeaf i ts3 (g_first g3) depth (r_addr r) (f_time f) (f_addr f) in
@@ -250,7 +305,8 @@ Fixpoint run (c : cfg) (tasks : list task) (l : list (nat * rec)) (g : gstate) :
           end
       | EXIT =>
           let f := fget (t_stack ts1) (t_sc ts1) in
-          let depth := N.pred (t_dd ts1) in                     (* fstack_update(EXIT) *)
+          (* fstack_update(EXIT): display_depth = stack_count + 1 when it has to be derived again *)
+          let depth := if pend then t_sc ts1 else N.pred (t_dd ts1) in
           let ts2 := set_dd ts1 depth in
           let ln := mk KClose i ts2 (g_first g2) depth (r_addr r) (f_time f) (f_addr f) in
           let '(out, g') := run c tasks tl (tset g2 i ts2) in
@@ -320,7 +376,7 @@ Definition orphan_of (sel : option (list nat)) (tasks : list task) (t : task) : 
   | Some p => Nat.ltb p (length tasks) && negb (selected sel p)
   | None => false
   end.
-Definition tstate_init (orphan : bool) : tstate := mkts false 0 0 0 [] 0 0 orphan.
+Definition tstate_init (orphan : bool) : tstate := mkts false 0 0 0 [] 0 0 orphan 0 false.
 
 Definition init_g (sel : option (list nat)) (tasks : list task) : gstate :=
   mkg (map (fun t => tstate_init (orphan_of sel tasks t)) tasks) (first_unselected sel tasks 0 0) 0.
@@ -367,7 +423,7 @@ Fixpoint column_view (offset : N) (cols : list (nat * N)) (next : N) (ls : list 
   | [] => []
   | l :: r =>
       match l_kind l with
-      | KWarn | KBlank => l :: column_view offset cols next r
+      | KWarn | KBlank | KLost => l :: column_view offset cols next r        (* the LOST line is not shifted *)
       | _ =>
           match lookup_col cols (l_task l) with
           | Some c => shift l (c * offset) :: column_view offset cols next r
@@ -426,7 +482,7 @@ Definition replay (forks : list N) (v : variant) (tasks : list task) : output :=
 (* ------------------------------------------------------------------ equality tests *)
 Definition kind_eqb (a b : kind) : bool :=
   match a, b with
-  | KOpen, KOpen | KLeaf, KLeaf | KClose, KClose | KWarn, KWarn | KBlank, KBlank => true
+  | KOpen, KOpen | KLeaf, KLeaf | KClose, KClose | KWarn, KWarn | KBlank, KBlank | KLost, KLost => true
   | _, _ => false
   end.
 Definition line_eqb (a b : line) : bool :=
@@ -463,12 +519,13 @@ Fixpoint spec_task (i : nat) (dd : N) (stk : list N) (rs : list rec) : list even
                 :: spec_task i (N.pred dd) stk' rest
           | [] => []            (* more EXITs than open calls: not a well-formed stream *)
           end
+      | LOST => []              (* streams with LOST markers: see [spec_lost] *)
       end
   end.
 
 (* frames inherited by a task whose stream does not start at depth 0: they count from the
    first record's time *)
-Definition first_depth (r : rec) : N := match r_type r with ENTRY => r_depth r | EXIT => r_depth r + 1 end.
+Definition first_depth (r : rec) : N := match r_type r with EXIT => r_depth r + 1 | _ => r_depth r end.
 Definition spec_start (rs : list rec) : list N :=
   match rs with
   | [] => []
@@ -513,6 +570,7 @@ Fixpoint srun (forks : list N) (tasks : list task) (l : list (nat * rec)) (S : l
                 :: srun forks tasks tl (supd S i (mkss true (N.pred (s_dd ss)) (s_fork ss) stk' (s_orphan ss)))
           | [] => []
           end
+      | LOST => []              (* the reference semantics is for streams without LOST markers *)
       end
   end.
 
@@ -556,12 +614,97 @@ Fixpoint wf_stream (d : N) (last : N) (rs : list rec) : bool :=
       match r_type r with
       | ENTRY => (r_depth r =? d) && wf_stream (d + 1) (r_time r) rest
       | EXIT => (0 <? d) && (r_depth r =? d - 1) && wf_stream (d - 1) (r_time r) rest
+      | LOST => false
       end
   end.
 Definition wf_task (t : task) : bool :=
   match k_recs t with
   | [] => true
   | r :: _ => wf_stream (first_depth r) 0 (k_recs t)
+  end.
+
+(* ---- streams with LOST markers ----
+   After a LOST marker the nesting restarts at the depth field of the next record: that record
+   and everything after it is indented by its depth field (as long as the depth fields stay
+   consistent); the durations of calls that were open at the marker, or entered inside the gap,
+   are whatever the reader's slots give (not specified here: [None]). *)
+Definition DONTCARE : N := W64.
+Fixpoint spec_lost (i : nat) (dd : N) (pend : bool) (stk : list (option N)) (rs : list rec) : list event :=
+  match rs with
+  | [] => []
+  | r :: rest =>
+      match r_type r with
+      | LOST => spec_lost i dd true stk rest
+      | ENTRY =>
+          let stk0 := if pend then repeat None (N.to_nat (r_depth r)) else stk in
+          let d := if pend then r_depth r else dd in
+          mkev true i d (r_addr r) 0 (r_time r) :: spec_lost i (d + 1) false (Some (r_time r) :: stk0) rest
+      | EXIT =>
+          let stk0 := if pend then repeat None (N.to_nat (r_depth r + 1)) else stk in
+          let d := if pend then r_depth r else N.pred dd in
+          match stk0 with
+          | t0 :: stk' =>
+              mkev false i d (r_addr r) (match t0 with Some t => r_time r - t | None => DONTCARE end) (r_time r)
+                :: spec_lost i d false stk' rest
+          | [] => []
+          end
+      end
+  end.
+
+(* well-formed stream with LOST markers: segments between markers are depth-consistent and
+   time-ordered; a marker may carry any timestamp (libmcount writes 0) *)
+Fixpoint wf_lost (d : option N) (last : N) (rs : list rec) : bool :=
+  match rs with
+  | [] => true
+  | r :: rest =>
+      match r_type r with
+      | LOST => ((r_time r =? 0) || (last <=? r_time r)) && (r_time r <? 9223372036854775808) &&
+                wf_lost None (if r_time r =? 0 then last else r_time r) rest
+      | ENTRY =>
+          (last <=? r_time r) && (r_time r <? 9223372036854775808) &&
+          (match d with Some d0 => r_depth r =? d0 | None => true end) && wf_lost (Some (r_depth r + 1)) (r_time r) rest
+      | EXIT =>
+          (last <=? r_time r) && (r_time r <? 9223372036854775808) &&
+          (match d with Some d0 => (0 <? d0) && (r_depth r =? d0 - 1) | None => true end) &&
+          wf_lost (Some (r_depth r)) (r_time r) rest
+      end
+  end.
+Definition wf_task_lost (t : task) : bool :=
+  match k_recs t with
+  | [] => true
+  | r :: _ => wf_lost (match r_type r with LOST => None | _ => Some (first_depth r) end) 0 (k_recs t)
+  end.
+Definition has_lost (t : task) : bool := existsb is_lost (k_recs t).
+
+(* which records of a merged stream lie in a depth-consistent stretch after a LOST marker of
+   their task: the tracker of theorem C06_lost_resync *)
+Inductive track := TNone | TPending | TSynced (d : N).
+Definition track_step (t : track) (r : rec) : track * bool :=
+  match r_type r with
+  | LOST => (TPending, false)
+  | ENTRY =>
+      match t with
+      | TPending => (TSynced (r_depth r + 1), true)
+      | TSynced d => if r_depth r =? d then (TSynced (d + 1), true) else (TNone, false)
+      | TNone => (TNone, false)
+      end
+  | EXIT =>
+      match t with
+      | TPending => (TSynced (r_depth r), true)
+      | TSynced d => if (0 <? d) && (r_depth r + 1 =? d) then (TSynced (r_depth r), true) else (TNone, false)
+      | TNone => (TNone, false)
+      end
+  end.
+Fixpoint tkupd (l : list track) (i : nat) (x : track) : list track :=
+  match l, i with
+  | [], _ => []
+  | _ :: t, O => x :: t
+  | h :: t, S i' => h :: tkupd t i' x
+  end.
+Fixpoint marks (l : list (nat * rec)) (T : list track) : list bool :=
+  match l with
+  | [] => []
+  | (i, r) :: tl => let '(t', m) := track_step (nth i T TNone) r in m :: marks tl (tkupd T i t')
   end.
 
 (* events of an output: a folded leaf is an entry followed by an exit (the exit time of a
@@ -572,14 +715,14 @@ Definition events_of_line (l : line) : list event :=
   | KClose => [mkev false (l_task l) (l_indent l) (l_name l) (l_dur l) (l_time l)]
   | KLeaf => [mkev true (l_task l) (l_indent l) (l_name l) 0 (l_time l);
               mkev false (l_task l) (l_indent l) (l_name l) (l_dur l) 0]
-  | KWarn | KBlank => []
+  | KWarn | KBlank | KLost => []
   end.
 Definition events_of (ls : list line) : list event := flat_map events_of_line ls.
 
 (* comparison of an observed event with the reference one: time only when displayed and known *)
 Definition ev_match (with_time : bool) (obs ref : event) : bool :=
   Bool.eqb (e_open obs) (e_open ref) && Nat.eqb (e_task obs) (e_task ref) && (e_indent obs =? e_indent ref) &&
-  (e_name obs =? e_name ref) && (e_dur obs =? fmt_time (e_dur ref)) &&
+  (e_name obs =? e_name ref) && ((e_dur ref =? DONTCARE) || (e_dur obs =? fmt_time (e_dur ref))) &&
   (negb with_time || (e_time obs =? 0) || (e_time obs =? e_time ref)).
 
 Fixpoint sorted_times (last : N) (es : list event) : bool :=
@@ -621,7 +764,10 @@ Fixpoint ok_tasks (forks : list N) (sel : option (list nat)) (with_time : bool) 
                                 else match k_recs t with r :: _ => first_depth r | [] => 0 end   (* parent not shown *)
                     | None => 0
                     end in
-         list_eqb (ev_match with_time) mine (spec_task i inh (spec_start (k_recs t)) (k_recs t))
+         list_eqb (ev_match with_time) mine
+                  (if has_lost t
+                   then spec_lost i inh false (map Some (spec_start (k_recs t))) (k_recs t)
+                   else spec_task i inh (spec_start (k_recs t)) (k_recs t))
        else match mine with [] => true | _ => false end)
       && ok_tasks forks sel with_time all es rest (S i)
   end.
@@ -633,8 +779,8 @@ Definition ok_output (forks : list N) (sel : option (list nat)) (with_time : boo
   (negb with_time || sorted_times 0 es) &&
   forallb (fun l => match l_kind l with KWarn => false | _ => true end) ls.
 
-(* presentation options: the events of a variant's output equal those of the reference
-   output on the fields both display; indentation up to the per-task column offset *)
+(* presentation options: the events of a variant's output equal those of the reference output on
+   the fields both display; indentation up to the per-task column offset *)
 Definition ev_same (tid dur : bool) (a b : event) : bool :=
   Bool.eqb (e_open a) (e_open b) && (negb tid || Nat.eqb (e_task a) (e_task b)) && (e_indent a =? e_indent b) &&
   (e_name a =? e_name b) && (negb dur || (e_dur a =? e_dur b)).
@@ -648,7 +794,7 @@ Fixpoint uncolumn (offset : N) (cols : list (nat * N)) (next : N) (ls : list lin
   | [] => []
   | l :: r =>
       match l_kind l with
-      | KWarn | KBlank => l :: uncolumn offset cols next r
+      | KWarn | KBlank | KLost => l :: uncolumn offset cols next r
       | _ =>
           let unshift c := mkline (l_kind l) (l_task l) (l_indent l - c * offset) (l_name l) (l_dur l) (l_addr l)
                                   (l_time l) (l_delta l) (l_elapsed l) in
@@ -675,7 +821,7 @@ Definition agree_case (c : tcase) : list bool :=
 Definition check_case (c : tcase) : list bool :=
   let '(forks, tasks, vs) := c in
   let ref := match vs with (_, o, _) :: _ => fst o | [] => [] end in
-  let wf := forallb wf_task tasks in
+  let wf := forallb wf_task_lost tasks in
   map (fun x : variant * output * chk =>
          let '(v, obs, k) := x in
          if wf then
